@@ -195,7 +195,98 @@ func TestVerifC04(t *testing.T) {
 	c04Seq(t, run, base)
 	c04Sched(t, run, base)
 	c04Lin(t, run, base)
+	c04ShortTTL(t, run, base)
 }
+
+// ------------------------------------------------------------------ (d)
+//
+// "ttl": the only stream with a short TTL (6 s). An existing copy that is a
+// few seconds old is PUT again or TOUCHed (acknowledged at t); once the OLD
+// timestamp + TTL has passed, but well before t + TTL, a DELETE or a trash-list
+// entry naming the stored timestamp arrives: the block must survive. The wall
+// clock only decides whether a case is judgeable (the remover must have
+// finished before t + TTL - 0.5 s); a slow machine makes cases "too slow",
+// never violations.
+func c04ShortTTL(t *testing.T, run *verifkit.Run, base string) {
+	const ttl = 6 * time.Second
+	n := run.N(40, 640)
+	type tc struct {
+		Age     string `json:"age"`
+		A       string `json:"a"`
+		Remover string `json:"remover"`
+	}
+	var mu sync.Mutex
+	var wg sync.WaitGroup
+	sem := make(chan bool, 8)
+	caseNo := 0
+	run.Cases("ttl", n, func(i int, rng *verifkit.Rand) {
+		caseNo++
+		c := tc{Age: rng.PickStr("1s", "2s", "3s", "4s", "5s"), A: rng.PickStr("put", "put", "touch"), Remover: rng.PickStr("delete", "trashlist")}
+		age, _ := time.ParseDuration(c.Age)
+		frng := rng.Fork()
+		no := caseNo
+		wg.Add(1)
+		sem <- true
+		go func() {
+			defer wg.Done()
+			defer func() { <-sem }()
+			mu.Lock()
+			e := c04NewEnv(t, run, base, 3000000+no, 1, nil, time.Hour, 1, frng, true)
+			mu.Unlock()
+			defer e.close()
+			e.cluster.Collections.BlobSigningTTL = arvados.Duration(ttl)
+			h, data := e.hashes[0], e.blocks[0]
+			mtime0 := time.Now().Add(-age)
+			vkPlant(t, e.vols[0].Root, h, data, mtime0)
+			tAck0 := time.Now()
+			var code int
+			if c.A == "put" {
+				code = e.do("PUT", "/"+h, data).Code
+			} else {
+				req := httptest.NewRequest("TOUCH", "/"+h, nil)
+				req.Header.Set("Authorization", "OAuth2 "+vkRootToken)
+				rec := httptest.NewRecorder()
+				e.srv.handler.ServeHTTP(rec, req)
+				code = rec.Code
+			}
+			if code != 200 {
+				run.Count("ttl_not_acked", 1)
+				return
+			}
+			// wait until the OLD timestamp is older than the TTL
+			for time.Now().Before(mtime0.Add(ttl + 300*time.Millisecond)) {
+				time.Sleep(50 * time.Millisecond)
+			}
+			if c.Remover == "delete" {
+				e.do("DELETE", "/"+h, nil)
+			} else {
+				snap := c04Snap(e.vols[0].Root)
+				f, ok := snap[c04Rel(h)]
+				if ok {
+					body, _ := json.Marshal([]TrashRequest{{Locator: h, BlockMtime: f.Mtime}})
+					e.do("PUT", "/trash", body)
+					e.drainTrashQueue()
+				}
+			}
+			tDel1 := time.Now()
+			if !tDel1.Before(tAck0.Add(ttl - 500*time.Millisecond)) {
+				run.Count("ttl_case_too_slow_not_judged", 1)
+				return
+			}
+			r := e.do("GET", "/"+h, nil)
+			run.Eval(1)
+			run.Count("ttl_cases_judged", 1)
+			run.Feature("ttl:" + c.Age + "," + c.A + "," + c.Remover)
+			if r.Code != 200 || !bytes.Equal(r.Body.Bytes(), data) {
+				run.Violation("C04:T1:acked-"+c.A+"-of-recent-copy-not-protected-for-ttl:"+c.Remover,
+					fmt.Sprintf("TTL %s; copy stored %s ago; %s acknowledged at t; %s issued %.1f s after t (old timestamp + TTL passed, t + TTL not) removed the block (GET %d)", ttl, c.Age, c.A, c.Remover, tDel1.Sub(tAck0).Seconds(), r.Code), c)
+			}
+		}()
+	})
+	wg.Wait()
+}
+
+func init() { _ = runtime.NumCPU }
 
 // ------------------------------------------------------------------ (a)
 
